@@ -274,6 +274,15 @@ def stale_cached_wod(op, pool):
     return False
 
 
+def mutates_handed_out_derivative(op, pool):
+    """in-place operations on an object that IS the derivative of another pool object (obtained with the `deriv`
+    op) change that parent behind its back: recorded finding KF-C05-5, exercised by the sweep, not by these programs"""
+    if op[0] not in ('insert_deriv', 'delete_deriv', 'delete_derivs', 'as_readonly', 'set_values', 'set_mask'):
+        return False
+    t = pool[op[1]]
+    return any(t is dv for o in pool for dv in o._derivs_.values())
+
+
 def uses_boolean_as_float(op, dumps):
     """Boolean overrides as_float (returns a Scalar); the model is of Qube.as_float"""
     isb = lambda i: dumps[i][0] == 'Boolean'
@@ -300,7 +309,7 @@ def gen_prim(rng, nops, table):
             op = gen_op(rng, dumps)
             for _ in range(20):
                 if not uses_boolean_as_float(op, dumps) and not first_mask_bit_matters(op, pool) \
-                        and not stale_cached_wod(op, pool):
+                        and not stale_cached_wod(op, pool) and not mutates_handed_out_derivative(op, pool):
                     break
                 op = gen_op(rng, dumps)
             if op[0] == 'pickle':
